@@ -102,8 +102,12 @@ def _c19_doc_term(t, i, env):
         sfx = "(Some Macro.T%s)" % ty.upper() if ty else "None"
         return "(MacroDoc.DInt %s (%d)%%Z)" % (sfx, int(num)), i + 1
     if h[0] == "d":
-        cps = "[" + "; ".join(str(ord(c)) for c in h[2:]) + "]"
-        return "(MacroDoc.DFloat %s %s)" % ("true" if h[1] == "-" else "false", cps), i + 1
+        lit, _, want = h[2:].partition("=")
+        sfx = "None"
+        if lit.endswith(("f32", "f64")):
+            sfx, lit = "(Some Macro.FT%s)" % lit[-2:], lit[:-3]
+        cps = lambda t: "[" + "; ".join(str(ord(c)) for c in t) + "]"
+        return "(MacroDoc.DFloat %s %s %s %s)" % ("true" if h[1] == "-" else "false", cps(lit), sfx, cps(want)), i + 1
     if h[0] == "$":
         return f"(MacroDoc.DStr {cps_term(h[1:])})", i + 1
     if h == "[":
@@ -135,7 +139,7 @@ def _c19_case_term(t):
     e = "None"
     for name, key in env.items():
         e = f"if str_eqb x {name} then Some {key} else {e}"
-    return (f"let d := {d} in (Macro.expand MacroFloat.lexical_f64 (fun x : list N => {e}) 3000%nat (MacroDoc.tokens d), "
+    return (f"let d := {d} in (Macro.expand MacroFloat.lexical_float (fun x : list N => {e}) 3000%nat (MacroDoc.tokens d), "
             f"parse_str (MacroDoc.text d), MacroDoc.value_of d, MacroDoc.text d)")
 
 
